@@ -468,7 +468,16 @@ def schedule_A(case, res):
     op, style, phase, nest, nreaders = case["op"], case["style"], case["phase"], case["nest"], case["readers"]
     log = Log()
     t = build_tree(0)
-    if not instrument(t, log):
+    try:
+        effective = instrument(t, log)
+    except Exception as e:  # noqa: BLE001
+        # an uncontended `with tree: pass` in a single thread raised: the lock is not usable at all
+        res.violation(case, f"`with tree: pass` on a fresh tree, no other thread involved, raised {type(e).__name__}: {e}")
+        return
+    if not effective:
+        if any(ev[1] == "released" for ev in log.events) and not any(ev[1] == "acquired" for ev in log.events):
+            res.violation(case, "`with tree: pass` released the tree lock without having acquired it")
+            return
         res.inconc("lock instrumentation is not effective: `with tree:` does not use tree._lock.acquire()/release()")
         return
     tmpdir = tempfile.mkdtemp(prefix="vmon-c18-")
@@ -625,7 +634,16 @@ def schedule_B(case, res):
     op, style, k = case["op"], case["style"], case["k"]
     log = Log()
     t = build_tree(0)
-    if not instrument(t, log):
+    try:
+        effective = instrument(t, log)
+    except Exception as e:  # noqa: BLE001
+        # an uncontended `with tree: pass` in a single thread raised: the lock is not usable at all
+        res.violation(case, f"`with tree: pass` on a fresh tree, no other thread involved, raised {type(e).__name__}: {e}")
+        return
+    if not effective:
+        if any(ev[1] == "released" for ev in log.events) and not any(ev[1] == "acquired" for ev in log.events):
+            res.violation(case, "`with tree: pass` released the tree lock without having acquired it")
+            return
         res.inconc("lock instrumentation is not effective: `with tree:` does not use tree._lock.acquire()/release()")
         return
     tmpdir = tempfile.mkdtemp(prefix="vmon-c18-")
@@ -1410,6 +1428,9 @@ def shards(tier, seed):
     ns = 4 if tier == "quick" else 32
     out += [{"name": f"stress{i}", "kind": "stress", "i": i, "iters": 40 if tier == "quick" else 2500, "budget_s": 200 if tier == "quick" else 1800, "cov": False,
              "timeout_s": 400 if tier == "quick" else 3600} for i in range(ns)]
+    # schedules A (every op, writer in the middle of its section) and C once more under `python -O`: taking the lock must not be
+    # the side effect of an assert statement
+    out += [{"name": f"opt{i}", "kind": "sched-opt", "i": i, "pyopt": True, "budget_s": 200 if tier == "quick" else 1200} for i in range(2)]
     return out
 
 
@@ -1419,6 +1440,15 @@ def run_shard(spec, res):
             if j % NSHARDS != spec["i"]:
                 continue
             run_case(pt, res)
+            if res.expired():
+                res.inconc("schedule enumeration cut by time budget")
+                return
+    elif spec["kind"] == "sched-opt":
+        pts = [pt for pt in all_points(spec["tier"]) if (pt["kind"] == "A" and pt.get("phase") == 2 and not pt.get("reader_holds_other")) or pt["kind"] == "C"]
+        for j, pt in enumerate(pts):
+            if j % 2 != spec["i"]:
+                continue
+            run_case({**pt, "pyopt": True}, res)
             if res.expired():
                 res.inconc("schedule enumeration cut by time budget")
                 return
